@@ -491,6 +491,40 @@ func (s *Store) Patch(kind, ns, name string, patch []byte) ([]byte, error) {
 	return s.put(k, old, stored), nil
 }
 
+// PatchStatus applies a JSON merge patch to status only.
+func (s *Store) PatchStatus(kind, ns, name string, patch []byte) ([]byte, error) {
+	if !kinds[kind].namespaced {
+		ns = ""
+	}
+	k := objKey{kind, ns, name}
+	old, ok := s.objs[k]
+	if !ok || !kinds[kind].hasStatus {
+		return nil, apierrors.NewNotFound(gr(kind), name)
+	}
+	stored := toMap(old)
+	pm := toMap(patch)
+	if pmd, ok := pm["metadata"].(jmap); ok {
+		if rv := mstr(pmd, "resourceVersion"); rv != "" && rv != mstr(meta(stored), "resourceVersion") {
+			return nil, apierrors.NewConflict(gr(kind), name, fmt.Errorf("the object has been modified"))
+		}
+	}
+	sp, has := pm["status"]
+	if !has {
+		return old, nil
+	}
+	if sp == nil {
+		delete(stored, "status")
+	} else if spm, ok := sp.(jmap); ok {
+		st, _ := stored["status"].(jmap)
+		if st == nil {
+			st = jmap{}
+			stored["status"] = st
+		}
+		mergePatch(st, spm)
+	}
+	return s.put(k, old, stored), nil
+}
+
 // Delete removes an object; pods bound to a node become Terminating first.
 func (s *Store) Delete(kind, ns, name string) error {
 	if !kinds[kind].namespaced {
